@@ -104,6 +104,9 @@ type deepCase struct {
 	// twoTopics: topics "t" and "t1" with 11 partitions each; the messages go to t/10, t1/0, t/1 and t1/10
 	// (partition bookkeeping keyed by topic and partition must keep them apart)
 	twoTopics bool
+	// hashKeyless: the default hash partitioner and messages without a key (each goes to a partition drawn
+	// when it first passes the dispatcher, and has to stay there when it is retried)
+	hashKeyless bool
 }
 
 func deepCases(prop, tier string) []directedCase {
@@ -148,6 +151,16 @@ func deepCases(prop, tier string) []directedCase {
 		for _, w := range [][]int{{}, {O, O, R}} {
 			for _, fl := range []int{0, 2} {
 				out = append(out, directedCase{deep: &deepCase{word: w, flush: fl, pauseUs: 300, twoTopics: true}, retry: 4, idem: true})
+			}
+		}
+	}
+	// key-less messages under the default hash partitioner, answers slow, the first request(s) refused
+	if prop == "C05" {
+		for _, w := range [][]int{{R}, {O, R}, {R, R}} {
+			for _, delay := range []int{2, 5} {
+				for _, parts := range []int{2, 4} {
+					out = append(out, directedCase{deep: &deepCase{word: w, pauseUs: 200, parts: parts, delayMs: delay, hashKeyless: true}, retry: 4, idem: true})
+				}
 			}
 		}
 	}
@@ -222,6 +235,9 @@ func directedScenario(prop string, c directedCase, rng *rand.Rand) *prodScenario
 		if c.deep.parts > 1 {
 			sc.Brokers, sc.Parts, sc.ProduceDelayMs = 1, c.deep.parts, c.deep.delayMs
 		}
+		if c.deep.hashKeyless {
+			sc.Partitioner = "hash"
+		}
 		if c.deep.twoTopics {
 			sc.Topics, sc.Parts = []string{"t", "t1"}, 11
 			where := []struct {
@@ -238,6 +254,9 @@ func directedScenario(prop string, c directedCase, rng *rand.Rand) *prodScenario
 			ms := &msgSpec{ID: i, Topic: "t", Part: 0, N: i, Value: valueFor(i, 3, rng), KeyNil: true, PauseUs: c.deep.pauseUs}
 			if c.deep.parts > 1 {
 				ms.Part, ms.N = int32(i%c.deep.parts), i/c.deep.parts
+			}
+			if c.deep.hashKeyless {
+				ms.Part, ms.N = -1, i
 			}
 			sc.Msgs = append(sc.Msgs, ms)
 		}
